@@ -163,7 +163,7 @@ def identify_object(
     elif obj_type in ["content", "directory"]:
         path = os.fsencode(obj)
         if follow_symlinks and os.path.islink(obj):
-            path = os.path.realpath(obj)
+            path = os.path.realpath(path)
         if obj_type == "content":
             swhid = str(swhid_of_file(path))
         elif obj_type == "directory":
